@@ -46,6 +46,8 @@ pub enum Item {
     Journal(u16, u8),
     Transfer(Xfer),
     Messy(Ev),
+    /// hostile but well-shaped plugin trigger (error paths of the decoders)
+    Proto(crate::props::proto::PItem),
 }
 
 struct Enc(Vec<u8>, u8);
@@ -103,7 +105,9 @@ fn expand(items: &[Item]) -> Vec<(DltMessage, bool)> {
                 if !p.is_empty() {
                     let s = (*start as usize * p.len()) >> 16;
                     for m in p.iter().skip(s).take(*len as usize + 1) {
-                        out.push((m.clone(), false));
+                        // (a data package of a file transfer recorded in an example file may be dropped as well)
+                        let flda = m.payload.windows(5).take(12).any(|w| w == b"FLDA\0");
+                        out.push((m.clone(), flda));
                     }
                 }
             }
@@ -168,6 +172,9 @@ fn expand(items: &[Item]) -> Vec<(DltMessage, bool)> {
             Item::Messy(e) => {
                 out.push((build_messy(std::slice::from_ref(e)).pop().unwrap(), false));
             }
+            Item::Proto(p) => {
+                out.extend(crate::props::proto::build(std::slice::from_ref(p)));
+            }
         }
     }
     for (i, (m, _)) in out.iter_mut().enumerate() {
@@ -218,8 +225,22 @@ fn decoders(v: &Case, rep: &mut Rep) -> Result<(), String> {
     let out = std::cell::RefCell::new(vec![]);
     let _plugins = plugins_process_msgs(rx, &|m| { out.borrow_mut().push(m); Ok(()) }, plugins).map_err(|e| format!("plugins_process_msgs error {}", e))?;
     let out = out.into_inner();
-    let expected: Vec<&DltMessage> = input.iter().filter(|(_, flda)| !(ft_drops && *flda)).map(|(m, _)| m).collect();
-    ensure_eq!(out.len(), expected.len(), "number of forwarded messages (plugins {:?})", kinds.iter().map(|k| PLUGIN_NAMES[*k]).collect::<Vec<_>>());
+    // the output is the input without (some) file transfer data packages, and only when so configured
+    let mut expected: Vec<&DltMessage> = vec![];
+    let mut dropped = 0;
+    {
+        let mut oi = 0;
+        for (m, flda) in input.iter() {
+            if oi < out.len() && out[oi].index == m.index {
+                expected.push(m);
+                oi += 1;
+            } else {
+                ensure!(ft_drops && *flda, "message {} (apid {:?} ctid {:?}) was not forwarded in its place (plugins {:?}); next forwarded index: {:?}", m.index, m.apid(), m.ctid(), kinds.iter().map(|k| PLUGIN_NAMES[*k]).collect::<Vec<_>>(), out.get(oi).map(|o| o.index));
+                dropped += 1;
+            }
+        }
+        ensure_eq!(oi, out.len(), "forwarded messages that are no input message in its place (duplicate/reordered); plugins {:?}", kinds.iter().map(|k| PLUGIN_NAMES[*k]).collect::<Vec<_>>());
+    }
     let mut decoded = 0;
     let mut ext_filled = 0;
     let mut ts_changed = 0;
@@ -229,7 +250,12 @@ fn decoders(v: &Case, rep: &mut Rep) -> Result<(), String> {
         ensure!(o.ecu == e.ecu, "ECU of message {} changed", e.index);
         ensure!(o.payload == e.payload, "payload bytes of message {} changed", e.index);
         ensure_eq!(o.lifecycle, e.lifecycle, "lifecycle of message {}", e.index);
-        ensure_eq!(o.standard_header, e.standard_header, "standard header of message {}", e.index);
+        if e.extended_header.is_some() || o.extended_header.is_none() {
+            ensure_eq!(o.standard_header, e.standard_header, "standard header of message {}", e.index);
+        } else {
+            // a filled-in extended header may be flagged in the header type
+            ensure!(o.standard_header.htyp & !1 == e.standard_header.htyp & !1 && o.standard_header.mcnt == e.standard_header.mcnt, "standard header of message {} changed: {:?} -> {:?}", e.index, e.standard_header, o.standard_header);
+        }
         if e.extended_header.is_some() {
             ensure_eq!(o.extended_header, e.extended_header, "existing extended header of message {} changed", e.index);
         } else if o.extended_header.is_some() {
@@ -258,7 +284,8 @@ fn decoders(v: &Case, rep: &mut Rep) -> Result<(), String> {
     rep.label_if(decoded > 0, "text_decoded");
     rep.label_if(ext_filled > 0, "ext_header_filled");
     rep.label_if(ts_changed > 0, "timestamp_rewritten");
-    rep.label_if(ft_drops && input.iter().any(|x| x.1), "flda_dropped");
+    rep.label_if(dropped > 0, "flda_dropped");
+    rep.label_if(items.iter().any(|i| matches!(i, Item::Proto(_))), "hostile_trigger");
     rep.label_if(kinds.len() >= 2, "ge2_plugins");
     rep.nontrivial = decoded > 0 && kinds.len() >= 2;
     Ok(())
@@ -315,8 +342,8 @@ fn build_anon(evs: &[AEv]) -> Vec<DltMessage> {
         .collect()
 }
 
-fn anonymise(evs: &Vec<AEv>, rep: &mut Rep) -> Result<(), String> {
-    let msgs = build_anon(evs);
+/// the anonymiser on `msgs`: times/index untouched, id mapping a function and injective; returns (anonymised, nr of ECUs)
+fn anon_mapping(msgs: &[DltMessage]) -> Result<(Vec<DltMessage>, usize), String> {
     let mut anon = AnonymizePlugin::new("anon");
     let mut amsgs = vec![];
     for m in msgs.iter().cloned() {
@@ -360,6 +387,60 @@ fn anonymise(evs: &Vec<AEv>, rep: &mut Rep) -> Result<(), String> {
             ensure!(distinct(cmap.iter().filter(|(k, _)| k.0 == *ecu && k.1 == ap.1).map(|(_, v)| v.as_u32le()).collect()), "two CTIDs of one ECU/APID share a pseudonym");
         }
     }
+    Ok((amsgs, emap.len()))
+}
+
+/// id populations up to the pseudonym capacity (999 per kind: three decimal digits)
+fn anonymise_capacity(v: &(u8, u16, u16, Vec<u16>), rep: &mut Rep) -> Result<(), String> {
+    let (kind, n, stride, repeats) = v;
+    let n = std::cmp::max(2, *n as usize % 1000); // 2..=999
+    let idn = |prefix: u8, k: usize| DltChar4::from_buf(&[prefix, b"0123456789abcdefghijklmnopqrstuvwxyz"[k / 36 % 36], b"0123456789abcdefghijklmnopqrstuvwxyz"[k % 36], b"0123456789abcdefghijklmnopqrstuvwxyz"[k / 1296 % 36]]);
+    // every id once in a scrambled order, then repeats
+    let mut stride = std::cmp::max(1, *stride as usize % n);
+    while gcd(stride, n) != 1 {
+        stride += 1;
+    }
+    let order: Vec<usize> = (0..n).map(|i| i * stride % n).chain(repeats.iter().map(|r| *r as usize % n)).collect();
+    let msgs: Vec<DltMessage> = order
+        .iter()
+        .enumerate()
+        .map(|(i, k)| {
+            let (e, a, c) = match kind % 3 {
+                0 => (*k, 0, 0),
+                1 => (0, *k, k % 2),
+                _ => (0, k % 3, *k),
+            };
+            DltMessage {
+                index: i as u32,
+                reception_time_us: BASE + i as u64 * 1000,
+                ecu: idn(b'E', e),
+                timestamp_dms: i as u32 * 10,
+                standard_header: DltStandardHeader { htyp: 0x31, mcnt: i as u8, len: 0 },
+                extended_header: Some(DltExtendedHeader { verb_mstp_mtin: 0x41, noar: 0, apid: idn(b'A', a), ctid: idn(b'C', c) }),
+                payload: vec![1, 2, 3, 4, 5, 6],
+                payload_text: None,
+                lifecycle: 0,
+            }
+        })
+        .collect();
+    anon_mapping(&msgs)?;
+    rep.label(["ecu_population", "apid_population", "ctid_population"][*kind as usize % 3]);
+    rep.label_if(n > 900, "gt900_ids");
+    rep.label_if(n == 999, "at_capacity");
+    rep.nontrivial = n > 40;
+    Ok(())
+}
+fn gcd(a: usize, b: usize) -> usize {
+    if b == 0 {
+        a
+    } else {
+        gcd(b, a % b)
+    }
+}
+
+fn anonymise(evs: &Vec<AEv>, rep: &mut Rep) -> Result<(), String> {
+    let msgs = build_anon(evs);
+    let (amsgs, n_ecus) = anon_mapping(&msgs)?;
     // lifecycle structure of original vs anonymised
     let opts = DetOpts { cross_thread: false, paced: false, want_listing: false };
     let (r1, _a, _b) = run_detector(msgs.clone(), &opts, None);
@@ -389,11 +470,11 @@ fn anonymise(evs: &Vec<AEv>, rep: &mut Rep) -> Result<(), String> {
     };
     ensure!(key(&r1) == key(&r2), "lifecycle boundaries/counts of the anonymised trace differ: {:?} vs {:?}", key(&r1), key(&r2));
     ensure_eq!(r1.table.len(), r2.table.len(), "number of lifecycles");
-    rep.label_if(emap.len() >= 2, "ge2_ecus");
+    rep.label_if(n_ecus >= 2, "ge2_ecus");
     rep.label_if(r1.table.len() >= 2, "ge2_lifecycles");
     rep.label_if(r1.table.len() > 3, "gt3_lifecycles");
     rep.label_if(msgs.iter().any(|m| m.extended_header.is_none()), "msg_without_ext_header");
-    rep.nontrivial = emap.len() >= 2 && r1.table.len() >= 2;
+    rep.nontrivial = n_ecus >= 2 && r1.table.len() >= 2;
     Ok(())
 }
 
@@ -407,6 +488,7 @@ pub fn def(tier: Tier) -> PropertyDef {
         2 => (0u16..5000, 0u8..8).prop_map(|(a, b)| Item::Journal(a, b)),
         1 => xfer.prop_map(Item::Transfer),
         3 => ev(3).prop_map(Item::Messy),
+        5 => crate::props::proto::pitem().prop_map(Item::Proto),
     ];
     let case = (prop::collection::vec(0u8..6, 0..7), any::<bool>(), prop::collection::vec(item, 1..25));
     PropertyDef {
@@ -414,10 +496,11 @@ pub fn def(tier: Tier) -> PropertyDef {
         rule: "streams mixing messages from the repository example files (dlt, asc/CAN), trigger shapes (non-verbose ids of tests/non_verbose*.xml incl. too short payloads and unknown ECU, SOME/IP service/method ids of tests/fibex1.xml, Muniic 13-argument messages, SYS/JOUR lines for tests/rewrite.cfg, FLST/FLDA/FLFI transfers) and arbitrary traffic, through plugins_process_msgs with every subset/order of {NonVerbose, SomeIp, CAN, Muniic, Rewrite, FileTransfer(keepFLDA on/off)} built by factory::get_plugin from the repository configs; oracle: output = input minus FLDA when configured; index, reception time, ECU, payload, lifecycle, standard header, existing extended header untouched; timestamp only with Rewrite. Anonymise: populations of 1..8 ECUs x up to 40 APIDs/CTIDs; mapping function + injective, times untouched, detector on original and anonymised trace gives the same partition, starts, ends, counts. Non-trivial: >=1 message text decoded and >=2 plugins; anonymise: >=2 ECUs and >=2 lifecycles.",
         assumptions: vec!["plugins are configured from /repo/tests (fibex1.xml, non_verbose*.xml, muniic, rewrite.cfg); the repository FIBEX describes no CAN channel, so for the CAN plugin only the pass-through (nothing touched) behaviour is reachable", "control responses are not part of the anonymise stream (their payload is rewritten on purpose)"],
         subs: vec![
-            sub("decoder_plugins", tier.pick(150_000, 2_000_000), case, decoders).rates(&[("text_decoded", 0.3), ("ge2_plugins", 0.5), ("flda_dropped", 0.02), ("ext_header_filled", 0.03), ("timestamp_rewritten", 0.03), ("someip_text", 0.02), ("muniic_text", 0.02), ("nonverbose_text", 0.05), ("rewrite_text", 0.03)]).shrink_iters(300).boxed(),
+            sub("decoder_plugins", tier.pick(150_000, 2_000_000), case, decoders).rates(&[("text_decoded", 0.3), ("ge2_plugins", 0.5), ("flda_dropped", 0.02), ("ext_header_filled", 0.03), ("timestamp_rewritten", 0.03), ("someip_text", 0.02), ("muniic_text", 0.02), ("nonverbose_text", 0.05), ("rewrite_text", 0.03), ("hostile_trigger", 0.5)]).shrink_iters(300).boxed(),
             sub("anonymise", tier.pick(150_000, 2_000_000), prop::collection::vec(aev(3, 4), 1..80), anonymise).rates(&[("ge2_ecus", 0.5), ("gt3_lifecycles", 0.3), ("msg_without_ext_header", 0.3)]).boxed(),
             crate::props::binsubs::c19_sub(tier),
             sub("anonymise_many_ids", tier.pick(8_000, 100_000), prop::collection::vec(aev(8, 40), 50..400), anonymise).boxed(),
+            sub("anonymise_capacity", tier.pick(3_000, 40_000), (0u8..3, prop_oneof![3 => 2u16..1000, 1 => 900u16..1000, 1 => Just(999u16)], any::<u16>(), prop::collection::vec(any::<u16>(), 0..60)), anonymise_capacity).rates(&[("gt900_ids", 0.2), ("at_capacity", 0.1), ("ecu_population", 0.2), ("apid_population", 0.2), ("ctid_population", 0.2)]).boxed(),
         ],
         workers: 16,
     }
